@@ -587,6 +587,7 @@ func main() {
 	})
 	r.Isolate("2d", func() { check2D(r) })
 	r.Isolate("metaballs", func() { metaballStage(r) })
+	r.Isolate("magnitudes", func() { magnitudeStage(r) })
 	r.Isolate("conj", func() {
 		n := 2
 		if r.Thorough() {
